@@ -30,6 +30,7 @@ CFGS = {
     "SendBigWFull": ("SendBigWFull", BIG, 1),
     "RecvBigW": ("RecvBigW", 5, 6),
     "RecvDevfull": ("RecvDevfull", 4, BIG),
+    "RecvPrefill": ("RecvPrefill", 3, 5),
 }
 for name, (params, maxbase, maxhist) in CFGS.items():
     with open("MC_%s.cfg" % name, "w") as f:
